@@ -456,7 +456,7 @@ theorem stepEdit_ok {s s' : State} {sender c t name uri uriHash data dok}
 
 theorem stepTransfer_ok {s s' : State} {sender rcpt c t name uri uriHash data dok}
     (h : stepTransfer s sender rcpt c t name uri uriHash data dok = .ok s') :
-    transferVB sender rcpt c t dok = true ∧
+    transferVB sender rcpt c t uri dok = true ∧
     ∃ r cl, tokenOf s c t = some r ∧ ownerOf s c t = some sender ∧ AMap.get? s.classes c = some cl ∧
       (cl.updateRestricted = true → anyChange name uri uriHash data = false) ∧
       ∃ tk, (tk = s.tokens ∨ (anyChange name uri uriHash data = true ∧
